@@ -232,6 +232,37 @@ func (w *World) checkRootHandling(P string, f *Facts, r *Roles, ef *ExecFacts) {
 			}
 		}
 	}
+	// R01.11 following axis from attribute / namespace context nodes
+	docRule(P, "R01.11", "X", "the following axis of an attribute or namespace node contains the children of its parent element (they come after it in document order and are not its descendants); such a context node is not among parent.Children(), so the search for the cursor among the children can never match: the collector must test the node kind (node.Attribute and node.Namespace) and let that test decide that everything in the parent's child list follows.")
+	if arm := at.Arms["following"]; arm != nil && arm.Callee != nil {
+		kinds := map[string]bool{}
+		var where ssa.Instruction
+		for fn := range staticReach(arm.Callee, func(fn *ssa.Function) bool { return fnPkgKey(fn) == "exec" }) {
+			allInstrs(fn, func(in ssa.Instruction) {
+				ta, ok := in.(*ssa.TypeAssert)
+				if !ok || !ta.CommaOk {
+					return
+				}
+				n, _ := nodeIface(ta.AssertedType)
+				if n == nil {
+					return
+				}
+				// the ok value must be used (feeds the found flag)
+				for _, rr := range referrers(ta) {
+					if ex, ok := rr.(*ssa.Extract); ok && ex.Index == 1 && len(referrers(ex)) > 0 {
+						kinds[n.Obj().Name()] = true
+						where = ta
+					}
+				}
+			})
+		}
+		p := arm.Callee.Pos()
+		if where != nil {
+			p = where.Pos()
+		}
+		w.check(P, "R01.11", "axis following: attribute and namespace context nodes", p, kinds["Attribute"] && kinds["Namespace"], fmt.Sprintf("node kinds tested by the following collector: %v (both node.Attribute and node.Namespace are required)", keys(kinds)))
+	}
+	w.floor(P, "R01.11", 1)
 	w.floor(P, "R01.5a", 6)
 	w.floor(P, "R01.5b", 2)
 	w.floor(P, "R01.5c", 4)
